@@ -78,6 +78,18 @@ class BuilderSystem:
 
     def apply(self, st, op):
         """Real call with context bookkeeping. Returns (exc, chunks)."""
+        if op[0] == "!fault":
+            # the same call while a second output (registered behind the recorder) fails on the first line it is handed:
+            # what reached the recorder is what the machine got, and the reported state has to agree with that
+            if getattr(st, "fault", None) is None:
+                from ..harness import FaultyWriter
+                st.fault = FaultyWriter()
+                st.g.add_writer(st.fault)
+            st.fault.armed = True
+            try:
+                return self.apply(st, op[1])
+            finally:
+                st.fault.armed = False
         if op[0] == "enter":
             st.ctxinfo.append((op[1][0], str(getattr(st.g, "distance_mode", None))))
         if getattr(self, "debug_log", False):
